@@ -25,7 +25,7 @@ CHECKS = {
             "pair; zero divisors must panic / give None; all (n,d) at BITS<=6, adversarial Knuth inputs (add-back, forced digit, "
             "every divisor limb length and normalisation class) elsewhere."),
     "C04": ("spec/UintMachine.tla (Canonical, NativeOK), spec/UintBits.tla CheckCmp, spec/UintCanon.tla", "TLC model-checks the register "
-            "machine UintMachine (57 public operations as actions) exhaustively at tiny widths with the invariants Canonical (closure of "
+            "machine UintMachine (101 public operations as actions: arithmetic, bit operations, shifts, modular arithmetic incl. inv_mod and Montgomery products, checked forms, iterator folds, cross-width conversions and round trips through text, bytes, limbs and every wire codec) exhaustively at tiny widths with the invariants Canonical (closure of "
             "the canonical set) and NativeOK (agreement with the plain integer statements), and every explored transition is replayed "
             "on the real Uint (spec -> implementation); TLC -simulate histories at non-aligned real widths are stepped through the real "
             "register file and compared after every step; in the other direction histories drawn by the executor's own driver are "
